@@ -23,6 +23,16 @@ What a family must satisfy is `StopLaw`: a step that was allowed by the check le
 the next state (no error) resp. room for U+FFFD (error) inside the space that was checked, and the
 flush of a delayed output plus `eofRoom` of the flushed state fits `minCap`.
 
+The same at the level of `Decoder` (the BOM life cycle, second half of the file): for every decoder
+reachable from `Decoder.new` that is not finished, every source and every destination of at least
+`minCap`, budgets `b1` (replay of withheld BOM bytes) and `b2` (the source) exist for which
+`Decoder.rawCall` does not reach the "output buffer must have been too small" panic and all its
+inner variant-decoder calls are admissible as the driver checks them (`rawCall_exists`,
+`rawCall_exists_reachable`; `DGood`).  The replay is never stopped before its first byte (it asks for
+at most `minCap`), and the call on the source goes on in what the replay left of the destination,
+which may be less than `minCap` (`call_exists_x`, `exists_admissible_chain`: a call that ended with
+`InputEmpty` under the scheme leaves the room its state needs).
+
 What is **not** claimed here: that the stops of the *real* decoder are admissible (that is the
 correspondence run of the harness), nor that an admissible budget exists below `minCap`
 (`gb18030_cap3_none` at the end of the file: with 3 bytes of UTF-8 no budget is admissible for a
